@@ -3,7 +3,7 @@ import contracts.all  # noqa
 import contracts.mailbox as M
 
 PROVED = [M.has_msg_list, M.get_msg_list, M.can_fetch, M.KILL_E, M.KILL_L, M.SUBSCRIBE_E, M.SUBSCRIBE_L,
-          M.SEND_E, M.SEND_L, M.CLOSE_E, M.CLOSE_L, M.READ_E, M.READ_L]
+          M.SEND_E, M.SEND_L, M.CLOSE_E, M.CLOSE_L, M.READ_E, M.READ_L, M.SEND_FROM_E, M.SEND_FROM_L]
 
 PROPERTY = Property(
     "C05", "proof",
